@@ -179,7 +179,20 @@ pub fn scenarios(thorough: bool) -> Vec<Scenario> {
         &[Op::Commit(0, 2), Op::Snapshot(0), Op::Unstage(0)]));
     v.push(single_scenario("single-arrays", arr_docs(), if thorough { 4 } else { 3 }, &[Op::Snapshot(0)]));
     v.push(pair_conflict_scenario("pair-conflict", 2, 3, if thorough { &[1, 8, 4] } else { &[1, 8] }, if thorough { 5 } else { 4 },
-        &[Op::Resolve(1, 0, 0), Op::Resolve(1, 0, 1), Op::Snapshot(1), Op::Commit(1, 2)]));
+        &[Op::Resolve(1, 0, 0), Op::Resolve(1, 0, 1), Op::Snapshot(1), Op::Commit(1, 2), Op::ObjPut(1, 1)]));
+    // chains of several staged revisions of the same objects in the very first commit; discard and redo
+    let a = arr_docs();
+    v.push(single_scenario("single-first-commit", vec![a[0].clone(), a[3].clone(), a[4].clone(), a[8].clone()], if thorough { 6 } else { 5 },
+        &[Op::Unstage(0), Op::ObjPut(0, 1), Op::ObjPut(0, 2), Op::ObjDel(0)]));
+    // the same explorations under a reversed hash-iteration order (order of the change records in a
+    // block and of the objects in a pack)
+    let mut rev: Vec<Scenario> = v.iter().cloned().map(|mut s| {
+        s.name = format!("{}[hash-order=reverse]", s.name);
+        s.order = Some(melda::verif_hooks::order::Mode::Reverse);
+        if !thorough && s.max_depth > 3 { s.max_depth -= 1; }
+        s
+    }).collect();
+    v.append(&mut rev);
     v
 }
 
